@@ -15,7 +15,7 @@ from core.guards import atom, atoms_of, f_not, implies
 from core.loader import AnalysisError, FuncInfo, Repo, ancestors, calls_in, header, norm, own_nodes, parent
 from core.report import Result
 
-from .common import cfg_of, conds, dotted, guard_formula, is_attr_call, loop_carried, loops_around, stmt_of, types_of, where
+from .common import cfg_of, conds, dotted, guard_formula, truth, is_attr_call, loop_carried, loops_around, stmt_of, types_of, where
 from .tables import EVAL_GRAPH, MATCHER, RULE, SEARCHES
 
 CONVERTER = "pytestarch.eval_structure.module_name_converter"
@@ -85,7 +85,7 @@ def run_r2(repo: Repo, res: Result) -> None:
     ok = len(assigns) == 1 and "identifier" in norm(assigns[0].value) and not any(isinstance(g, ast.comprehension) and g.ifs for g in ast.walk(assigns[0].value))
     res.add("C11.R2", f"{f.relpath}::{f.qualname}::patterns = all regex filters", ok, "every regex filter takes part in the scan" if ok else f"`{psrc}` is (re)assigned {len(assigns)} times / filtered: some regex filters are resolved outside the pattern test", where(f, inner[0]), kind="structural")
     # accumulators: only changed under the match test
-    H = f"bool({norm(mc)})"
+    H = truth(f, mc)
     rets = [s for s in own_nodes(f.node) if isinstance(s, ast.Return) and s.value is not None]
     if len(rets) != 1 or not isinstance(rets[0].value, ast.Tuple):
         raise AnalysisError(f"{f.fq}: expected a single `return converted, mapping`")
@@ -112,7 +112,7 @@ def run_r2(repo: Repo, res: Result) -> None:
                     continue
                 n += 1
                 g = guard_formula(f, c)
-                ok = implies(g, atom(H))
+                ok = implies(g, H)
                 res.add("C11.R2", repo.key(f, stmt_of(c)), ok, "changed only for a (pattern, module) pair that matches" if ok else f"`{norm(c, 80)}` is executed without the pattern test having matched: a regex resolves to modules by another criterion than `re.match(pattern, name)`", where(f, c), kind="dominance")
     res.floor("C11.R2.acc", 3, n)
     # ModuleNameFilter built from the matched module
